@@ -230,3 +230,54 @@ def array_bound(prog, base):
     if m:
         return int(m.group(1))
     return None
+
+
+def comparator_spec(F):
+    """Analyse a qsort comparator: returns list of dicts
+         {field, op, sign, kind}   for every `if(A->f OP B->f) return c;`  (kind 'field')
+         {call, ...}               for comparisons of a call result (strncmp) against 0
+    where A derives from parameter 0 and B from parameter 1 (op is normalised to that orientation)."""
+    pmap = {}
+    for i, p in enumerate(F.params[:2]):
+        pmap[p["did"]] = i
+    # locals initialised from the parameters:  struct x* const *one = a;
+    for n in F.body.find("DeclStmt"):
+        for kid in n.kids:
+            if kid.role == "declinit":
+                r = kid.strip(casts=True)
+                if r.k == "DeclRefExpr" and r.d["did"] in pmap:
+                    pmap[kid.decl["did"]] = pmap[r.d["did"]]
+                elif r.k == "UnaryOperator" and r.d["op"] == "*" and r.kids[0].strip(casts=True).k == "DeclRefExpr" and \
+                        r.kids[0].strip(casts=True).d["did"] in pmap:
+                    pmap[kid.decl["did"]] = pmap[r.kids[0].strip(casts=True).d["did"]]
+
+    def side(e):
+        ids = {pmap[r.d["did"]] for r in e.refs() if r.d["did"] in pmap}
+        return ids.pop() if len(ids) == 1 else None
+
+    def first_return_sign(stmt):
+        for r in stmt.find("ReturnStmt"):
+            v = const_value(r.kids[0]) if r.kids else None
+            if v is None:
+                return None
+            return (v > 0) - (v < 0)
+        return None
+
+    out = []
+    flip = {"<": ">", ">": "<", "<=": ">=", ">=": "<=", "==": "==", "!=": "!="}
+    for ifs in F.body.find("IfStmt"):
+        c = ifs.child("cond").strip()
+        if c.k != "BinaryOperator" or c.d["op"] not in flip:
+            continue
+        l, r = c.kids
+        ls, rs = side(l), side(r)
+        lf = [m.d["field"] for m in l.find("MemberExpr")]
+        rf = [m.d["field"] for m in r.find("MemberExpr")]
+        then = ifs.child("then")
+        sign = first_return_sign(then) if then is not None else None
+        if ls is not None and rs is not None and ls != rs and lf and rf:
+            op = c.d["op"] if ls == 0 else flip[c.d["op"]]
+            out.append({"kind": "field", "field": lf[-1], "field_b": rf[-1], "op": op, "sign": sign, "node": ifs})
+        else:
+            out.append({"kind": "other", "text": c.text(), "sign": sign, "node": ifs})
+    return out
